@@ -146,6 +146,118 @@ func (c *Ctx) vmAliasTable() *vmAliases {
 		}
 		c.AliasNotes = append(c.AliasNotes, "vm."+f.Name()+" ("+tn+") holds the machine's "+refArr+"/"+refCnt+" as "+arr.Name()+"/"+cnt.Name())
 	}
+	// the instruction pointer (prog, pc) in a struct of its own, with the operand decoders as its methods
+	isProgPtr := func(t types.Type) bool {
+		p, ok := t.(*types.Pointer)
+		return ok && isNamed(p.Elem(), bclPath, "Prog")
+	}
+	vmHasProg := false
+	for i := 0; i < vst.NumFields(); i++ {
+		if isProgPtr(vst.Field(i).Type()) {
+			vmHasProg = true
+		}
+	}
+	for i := 0; i < vst.NumFields() && !vmHasProg; i++ {
+		f := vst.Field(i)
+		n, ok := f.Type().(*types.Named)
+		if !ok || n.Obj().Pkg() == nil || n.Obj().Pkg().Path() != bclPath || out.holders[n.Obj().Name()] {
+			continue
+		}
+		st, ok := n.Underlying().(*types.Struct)
+		if !ok {
+			continue
+		}
+		var prog *types.Var
+		var ints []*types.Var
+		nprog := 0
+		for j := 0; j < st.NumFields(); j++ {
+			g := st.Field(j)
+			if isProgPtr(g.Type()) {
+				prog = g
+				nprog++
+			} else if b, isB := g.Type().Underlying().(*types.Basic); isB && b.Kind() == types.Int {
+				ints = append(ints, g)
+			}
+		}
+		if nprog != 1 || len(ints) == 0 {
+			continue
+		}
+		var pc *types.Var
+		if len(ints) == 1 {
+			pc = ints[0]
+		} else {
+			// the one the code is indexed or sliced with in the struct's own methods
+			used := map[*types.Var]bool{}
+			for _, it := range c.sortedDecls() {
+				if it.fd.Body == nil || it.fd.Recv == nil {
+					continue
+				}
+				if rn, isN := derefType(c.typeOfRecv(it.fd)).(*types.Named); !isN || rn.Obj() != n.Obj() {
+					continue
+				}
+				ast.Inspect(it.fd.Body, func(x ast.Node) bool {
+					var base ast.Expr
+					var idx []ast.Expr
+					switch e := x.(type) {
+					case *ast.IndexExpr:
+						base, idx = e.X, []ast.Expr{e.Index}
+					case *ast.SliceExpr:
+						base, idx = e.X, []ast.Expr{e.Low, e.High}
+					default:
+						return true
+					}
+					if sel, isSel := stripParens(base).(*ast.SelectorExpr); !isSel || sel.Sel.Name != "code" {
+						return true
+					}
+					for _, ie := range idx {
+						if ie == nil {
+							continue
+						}
+						ast.Inspect(ie, func(y ast.Node) bool {
+							if sel, isSel := y.(*ast.SelectorExpr); isSel {
+								if fv, isVar := c.objOf(sel).(*types.Var); isVar {
+									for _, g := range ints {
+										if fv == g {
+											used[g] = true
+										}
+									}
+								}
+							}
+							return true
+						})
+					}
+					return true
+				})
+			}
+			if len(used) != 1 {
+				continue
+			}
+			for g := range used {
+				pc = g
+			}
+		}
+		tn := n.Obj().Name()
+		out.holders[tn] = true
+		for _, base := range []string{"<" + tn + ">.", "<vm>." + f.Name() + "."} {
+			out.prefix[base+prog.Name()] = "<vm>.prog"
+			out.prefix[base+pc.Name()] = "<vm>.pc"
+		}
+		if f.Embedded() {
+			// promoted fields are written vm.<name>
+			if prog.Name() != "prog" {
+				out.prefix["<vm>."+prog.Name()] = "<vm>.prog"
+			}
+			if pc.Name() != "pc" {
+				out.prefix["<vm>."+pc.Name()] = "<vm>.pc"
+			}
+		}
+		for j := 0; j < st.NumFields(); j++ {
+			if g := st.Field(j); g != prog && g != pc {
+				out.prefix["<"+tn+">."+g.Name()] = "<vm>." + f.Name() + "." + g.Name()
+			}
+		}
+		c.AliasNotes = append(c.AliasNotes, "vm."+f.Name()+" ("+tn+") holds the machine's prog/pc as "+prog.Name()+"/"+pc.Name())
+	}
 	if len(out.holders) == 0 {
 		return nil
 	}
